@@ -300,11 +300,13 @@ type recorder struct {
 func newRecorder(wf *sp.Workflow, name string) *recorder {
 	p := &recorder{BaseProcess: sp.NewBaseProcess(wf, name)}
 	p.InitInPort(p, "in")
+	p.InitOutPort(p, "done") // never used: several recorders without out-ports would all claim to be the driver
 	wf.AddProc(p)
 	return p
 }
 
 func (p *recorder) Run() {
+	defer p.CloseAllOutPorts()
 	for ip := range p.InPort("in").Chan {
 		vs.Note("recv:" + p.Name() + ":" + ip.Path())
 	}
